@@ -103,6 +103,7 @@ class Facet:
     strategy: Optional[Callable[[str], Any]] = None  # tier -> SearchStrategy
     enumerate: Optional[Callable[[str], Iterable]] = None  # tier -> iterable of cases
     machine: Optional[Callable[[str, "Recorder"], Any]] = None  # tier, rec -> Machine cls
+    external: Optional[Callable[[str, int, int, int, int], dict]] = None  # tier, seed, shard, n_shards, n -> shard result
     n_quick: int = 200
     n_thorough: int = 2000
     shards_quick: int = 4
@@ -346,6 +347,15 @@ def run_shard(args):
         api = ShardAPI(facet, rec, open_findings, shrink_cap)
         guarded = api.guarded
 
+        if facet.kind == "external":
+            # e.g. a coverage-guided fuzzing campaign in a subprocess; returns the same bookkeeping as a shard
+            res = facet.external(tier, hash32(base_seed, prop, facet.name, shard) % (2 ** 31 - 1) + 1, shard, n_shards, n_examples)
+            res.setdefault("extra_nontrivial", 0)
+            res.setdefault("known_hits", {})
+            res.setdefault("harness", None)
+            res["wall"] = time.time() - t0
+            return res
+
         if facet.kind == "enumerate":
             for i, case in enumerate(facet.enumerate(tier)):
                 if i % n_shards != shard:
@@ -567,7 +577,7 @@ def run_property(prop: str, tier: str, seed: int, only_facets=None, scale: float
         n_total = facet.n_quick if tier == "quick" else facet.n_thorough
         n_total = max(1, int(n_total * scale))
         n_shards = facet.shards_quick if tier == "quick" else facet.shards_thorough
-        if facet.kind != "enumerate":
+        if facet.kind not in ("enumerate",):
             n_shards = max(1, min(n_shards, n_total))
         per = max(1, math.ceil(n_total / n_shards))
         for k in range(n_shards):
